@@ -244,7 +244,8 @@ func runC02(t *testing.T, c simrt.Chooser, o Opts) *Out {
 		if len(got) >= 50 {
 			simrtProbe(&cr.Res, "huge-range-sampled")
 		}
-		for k, n := range got {
+		for _, k := range sortedProbeKeys(got) {
+			n := got[k]
 			switch {
 			case !s.Subnet.contains(k.IP):
 				out.violate("C02.outside-target", sigBase, "argv %v: probe to %v lies outside %v", w.Argv, k, s.Subnet)
